@@ -157,7 +157,8 @@ func (c *Ctx) Violation(key string, what string, replay map[string]any) {
 		}
 	}
 	c.violations++
-	if c.violations > 25 { // enough witnesses; keep counting only
+	c.counters["violations_by_key:"+key]++
+	if c.violations > 25 && c.counters["violations_by_key:"+key] > 3 { // enough witnesses; keep counting only (but at least 3 per kind)
 		return
 	}
 	c.replayN++
